@@ -85,6 +85,7 @@ let () =
         let tbl : (loc, z) Hashtbl.t ref = ref (Hashtbl.create 64) in
         let out = Buffer.create 256 in
         let stop = ref false in
+        let items_state : (nat * nat) list ref = ref [] in    (* colvars_smp / colvars_smp_items: survive between steps *)
         for t = 0 to nsteps - 1 do
           let nfs = ni () in
           for _ = 1 to nfs do
@@ -106,7 +107,8 @@ let () =
             let err = step_error !cfg tn in
             let vs' = prep_vars tn !cfg.c_vars in
             let avs = active_vars tn vs' in
-            let items = build_items avs in
+            let items = rebuild_items !items_state !cfg tn in
+            items_state := items;
             let ev = if mode = "unfixed" then List.concat_map (item_evaluates_unfixed vs') items
                      else if mode = "serial" then List.concat_map serial_evaluates avs
                      else List.concat_map (item_evaluates vs') items in
@@ -114,6 +116,18 @@ let () =
             let oc = List.map nat_of_int (List.filter (fun k -> k < nci) perm) in
             let ob = List.map nat_of_int (List.filter (fun k -> k < nbi) perm) in
             let s1 = if mode = "serial" then step_serial !cfg tn s0 else step_smp !cfg tn oc ob s0 in
+            (* small-step self-check of the extracted model: the component items under an interleaved read/write-phase trace
+               (two items in flight at a time, committed in reverse order) against their atomic serial execution *)
+            let citems = Model.concat (smp_cvc_work vs' tn) in
+            let nit = List.length citems in
+            let ord = List.filter (fun k -> k < nit) perm in
+            let rec mk l = match l with
+              | a :: b :: r -> Rd (nat_of_int a) :: Rd (nat_of_int b) :: Wr (nat_of_int b) :: Wr (nat_of_int a) :: mk r
+              | [a] -> [Rd (nat_of_int a); Wr (nat_of_int a)]
+              | [] -> [] in
+            let sa = mrun loc_eqb citems (mk ord) s0 [] and sb = run loc_eqb citems s0 in
+            let ss_ok = List.for_all (fun x -> x) (List.concat (List.mapi (fun v nc -> List.init nc (fun c ->
+                          let l = LCvc (nat_of_int v, nat_of_int c) in sa l = sb l)) ncomp)) in
             (* materialise *)
             let nt = Hashtbl.create 64 in
             let put l = Hashtbl.replace nt l (s1 l) in
@@ -128,8 +142,13 @@ let () =
                          @ (if use_script && not after then ["s"] else []) in
             Buffer.add_string out (Printf.sprintf "t=%d err=%d ITEMS=%s BITEMS=%s EV=%s" t (if err then 1 else 0)
                                      (pairs items) (String.concat "," bitems) (pairs ev));
-            if err then stop := true
-            else begin
+            if err then begin
+              (* the error step: component/collection part under the two paths (serial returns at the failing variable) *)
+              let s2 = run loc_eqb (if mode = "serial" then serial_cvc_items_err !cfg tn else smp_cvc_items_err !cfg tn) s0 in
+              Buffer.add_string out " XERR=";
+              List.iteri (fun v _ -> Buffer.add_string out (Printf.sprintf "%d," (int_of_z (s2 (LX (nat_of_int v)))))) ncomp;
+              stop := true
+            end else begin
               Buffer.add_string out " CVC=";
               List.iteri (fun v nc -> for c = 0 to nc - 1 do
                              Buffer.add_string out (Printf.sprintf "%d:%d:%d:%d," v c
@@ -140,7 +159,8 @@ let () =
               List.iteri (fun v _ -> Buffer.add_string out (Printf.sprintf "%d," (get (LF (nat_of_int v))))) ncomp;
               Buffer.add_string out " BE=";
               List.iteri (fun b _ -> Buffer.add_string out (Printf.sprintf "%d," (get (LBiasE (nat_of_int b))))) biases;
-              Buffer.add_string out (Printf.sprintf " EN=%d" (get LEnergy))
+              Buffer.add_string out (Printf.sprintf " EN=%d" (get LEnergy));
+              Buffer.add_string out (if ss_ok then " SS=ok" else " SS=BAD")
             end;
             Buffer.add_string out " ; ";
             cfg := next_cfg !cfg tn
